@@ -70,4 +70,16 @@ META = {
         "note": "Trusted: Coq kernel; harness; bufio.Reader.ReadString's contract (stated in the model, exercised, not proved); kernel FIFO semantics.",
         "technique": "Coq proof (induction over the chunk list with the buffer invariant) + correspondence through a real FIFO",
     },
+    "C05": {
+        "text": "Coq theorems over every line, token, writer behaviour and hand-off outcome: C05_forward_after_write (at most one login forwarded, only after exactly one succeeded event was written, the forwarded identity being that very event; write failure returns the error and forwards nothing; cancelled hand-off forwards nothing), C05_only_accepted_forward (only 'Accepted publickey'/'Accepted password' lines forward), C05_forward_content (pid = Atoi of the token, credential = 'unknown' or the certificate key id of the written event). Differential execution with an unbuffered logins channel records the order Encode-then-receive, pointer identity of the forwarded Source, write failure and cancellation modes.",
+        "design_ref": "DESIGN.md 6/C05",
+        "note": "Trusted: as C17. The positive direction for public-key/certificate lines rests on the correspondence + oracle (loginRE field theorem is partial, see C06). select with both arms ready is not generated.",
+        "technique": "Coq proof (all inputs; generated dispatch) + correspondence with fault modes",
+    },
+    "C07": {
+        "text": "Coq theorems C07_sshd_framing (for every pid token without space, padding and message not starting with a space, the framed record through the syslog ingester yields exactly the processor's result for (pid, message)), C07_internal_spacing, C07_no_space_line, over the model of ParseSyslogMessage/Process (strings.Split/Join/TrimLeft/TrimSuffix). Correspondence: every C06 form is run once directly and once framed through the real SyslogIngester.Process (callback level) and must be equal; ParseSyslogMessage is compared with the model on generated strings (C12 harness). The auditd half is checked at parser level (auparse with/without newline).",
+        "design_ref": "DESIGN.md 6/C07",
+        "note": "Partial: the auditd half is a contract of third-party auparse.Parse (TrimSpace) and is observed, not proved. FIFO-level delivery is C12's harness.",
+        "technique": "Coq proof (list lemmas on split/join/trim) + direct-vs-framed differential execution",
+    },
 }
